@@ -2,7 +2,8 @@
    Statements only; model in Sect/Slug.v, tables in Gen/PyUnicodeSlug.v (generated from the
    running interpreter and from the two slugify sources), proofs in Sect/SlugProofs.v. *)
 From Coq Require Import List NArith Arith Bool.
-From MV Require Import Base.PyStr Base.Res Sect.Slug Sect.SlugTables Sect.SlugProofs Gen.PyUnicodeSlug.
+From MV Require Import Base.PyStr Base.Res Refs.RUtil Refs.Anchors Sect.Slug Sect.SlugTables Sect.SlugProofs
+                       Sect.SlugEdge Sect.SlugIds Sect.SlugResolve Gen.PyUnicodeSlug Sect.SlugPy.
 Import ListNotations.
 Local Open Scope nat_scope.
 
@@ -70,15 +71,33 @@ Theorem C10_slugs_nodup : forall depth f hs, NoDup (assigned (fst (render_slugs 
 Proof. exact slugs_nodup. Qed.
 Print Assumptions C10_slugs_nodup.
 
+(* The disagreement set, exactly: the renderer's slug is the plug-in's slug with one '-' added at the
+   left for every U+0020 in the leading white space that strip() removes, and one at the right for
+   every U+0020 in the trailing white space; so the two slugs are equal iff neither edge contains an
+   ASCII space (other white space - tab, NBSP, ... - is removed by the cleaning on both sides). *)
+Theorem C10_edge_decomposition : forall t,
+  default_slugify py_lower py_is_word render_class t =
+  repeat 45%N (count32 (lead py_is_space t)) ++ py_plugin_slugify t ++ repeat 45%N (count32 (trail py_is_space t)).
+Proof. exact py_edge_decomposition. Qed.
+Print Assumptions C10_edge_decomposition.
+
+Theorem C10_slug_agree_iff : forall t,
+  default_slugify py_lower py_is_word render_class t = py_plugin_slugify t <->
+  (~ In 32%N (lead py_is_space t) /\ ~ In 32%N (trail py_is_space t)).
+Proof. exact py_agree_iff. Qed.
+Print Assumptions C10_slug_agree_iff.
+
 (* the anchors assigned during rendering are exactly those printed by myst-anchors -l depth -
-   PARTIAL: only for documents whose heading titles (text + inline code content) have no leading or
-   trailing white space; the full statement is refuted below (the renderer's default_slugify lacks
-   the plug-in's strip(), and the repair would break the pinned test test_references) *)
+   PARTIAL: for documents in which no heading title (text + inline code content) has an ASCII space in
+   its leading / trailing white space - by C10_slug_agree_iff exactly the titles on which the two
+   slugify functions agree; the full statement is refuted below (open finding: the renderer's
+   default_slugify lacks the plug-in's strip(), and the repair would break the pinned test
+   test_references) *)
 Theorem C10_matches_cli_partial : forall depth hs, Forall (fun h => 1 <= h_level h) hs ->
-  Forall (trimmed py_is_space) hs ->
+  Forall edge_space_free hs ->
   print_anchors depth py_plugin_slugify hs =
   Ok (rendered_anchors hs (fst (render_slugs depth py_default_slugify hs))).
-Proof. exact (matches_cli py_lower py_is_space py_is_word render_class). Qed.
+Proof. exact py_matches_cli. Qed.
 Print Assumptions C10_matches_cli_partial.
 
 (* "# a ![](x)": the inline children are text "a " and an image *)
@@ -122,6 +141,35 @@ Theorem C10_resolvable_model : forall depth f hs k r,
 Proof. exact resolvable_model. Qed.
 Print Assumptions C10_resolvable_model.
 
+(* Resolvability through the modelled ResolveAnchorIds.apply (coq/Refs/Anchors.v, C09): for every
+   heading sequence, depth and slug function, with the slug table as the renderer stores it
+   (slug -> (line, section id, title)) and no explicit target named like the slug, the link "#s" for an
+   assigned slug s gets refid = the id of the heading that owns s, no warning, no pending_xref, no
+   system message - under docutils and Sphinx, whatever the suppression setting. *)
+Theorem C10_resolvable : forall nl sphinx suppressed slug_hash depth f hs line sid title ex k r rf,
+  nth_error (fst (render_slugs depth f hs)) k = Some (SlugOk r) ->
+  dget ex r = None ->
+  r_frag rf = r ->
+  let o := resolve_one nl sphinx suppressed slug_hash ex
+             (slugs_of line sid title (snd (render_slugs depth f hs))) rf in
+  o_refid o = Some (sid k) /\ o_warn o = [] /\ o_pending o = false /\ o_msg o = false.
+Proof. exact resolvable. Qed.
+Print Assumptions C10_resolvable.
+
+(* docutils set_id (one name per node, make_id as an external function whose result is the input):
+   it terminates and the id is new; hence the sections / rubrics of a document get pairwise distinct
+   ids, none of them already in use - the refid above identifies the heading *)
+Theorem C10_set_id_fresh : forall base_id tag_id ids counters,
+  exists id counters', set_id base_id tag_id ids counters = Ok (id, counters') /\ ~ In id ids.
+Proof. exact set_id_fresh. Qed.
+Print Assumptions C10_set_id_fresh.
+
+Theorem C10_section_ids_distinct : forall nodes ids counters,
+  exists l, assign_ids nodes ids counters = Ok l /\ length l = length nodes /\
+            NoDup l /\ forall x, In x l -> ~ In x ids.
+Proof. exact assign_ids_distinct. Qed.
+Print Assumptions C10_section_ids_distinct.
+
 (* ---- the code as it was before the repairs ---- *)
 
 (* cumulative suffixing (slug = f"{slug}-{i}") breaks the least-suffix rule: a, a, a -> a-1-2 *)
@@ -137,4 +185,10 @@ Example C10_example :
          [ex_h 1 [97%N]; ex_h 1 [97%N]; ex_h 3 [97%N]; ex_h 2 [97%N; 45%N; 49%N]; ex_h 1 [65%N; 32%N; 98%N; 33%N]; ex_h 1 [97%N]]) =
   [SlugOk [97%N]; SlugOk [97%N; 45%N; 49%N]; SlugNone; SlugOk [97%N; 45%N; 49%N; 45%N; 49%N];
    SlugOk [97%N; 45%N; 98%N]; SlugOk [97%N; 45%N; 50%N]].
+Proof. vm_compute. reflexivity. Qed.
+
+(* "a", "a", "" (empty title): ids a, a-1, section-1 *)
+Example C10_example_ids :
+  assign_ids [([97%N], [115%N]); ([97%N], [115%N]); ([], [115%N])] [] [] =
+  Ok [[97%N]; [97%N; 45%N; 49%N]; [115%N; 45%N; 49%N]].
 Proof. vm_compute. reflexivity. Qed.
